@@ -8,7 +8,7 @@ use meshless_voronoi::integrals::VolumeIntegral;
 use proptest::strategy::BoxedStrategy;
 
 fn strategy(tier: Tier) -> BoxedStrategy<Case> {
-    gen::case_strategy(GenOpts { max_n: tier.pick(1500, 4000), big_n_weight: 1, ..GenOpts::default() })
+    gen::case_strategy(GenOpts { max_n: tier.pick(600, 4000), big_n_weight: 1, ..GenOpts::default() })
 }
 
 /// A-priori bound on the boundary measure of a cell that lies inside the ball of radius r
@@ -123,7 +123,7 @@ pub fn check(c: &Case, cs: &mut CaseStats) -> Result<(), String> {
 pub fn def() -> PropDef {
     PropDef {
         id: "C02",
-        rule: "cases: all point-set families (uniform, clusters, lattices, wall points, co-spherical, coplanar, dyadic, shared-coordinate, n=1/2), dims 1-3, periodic or not, n up to 1500 (quick) / 4000 (thorough), aspect to 2^14, offsets to 2^30, garbage in unused axes; oracle: every measure finite and > 0 and the sum equals the box measure within eps_pos*kappa*ball_surface(safety_radius/2) summed over cells + 1e-11*box, on three routes (Voronoi::build, VolumeIntegral, VolumeIntegral on cells with faces in 3D). non-trivial: n >= 2 and outside what the suite's consistency_check asserts (periodic or dim < 3 or |anchor|/width > 2 or aspect >= 8); distinct by case hash.",
+        rule: "cases: all point-set families (uniform, clusters, lattices, wall points, co-spherical, coplanar, dyadic, shared-coordinate, n=1/2), dims 1-3, periodic or not, n up to 600 (quick) / 4000 (thorough), aspect to 2^14, offsets to 2^30, garbage in unused axes; oracle: every measure finite and > 0 and the sum equals the box measure within eps_pos*kappa*ball_surface(safety_radius/2) summed over cells + 1e-11*box, on three routes (Voronoi::build, VolumeIntegral, VolumeIntegral on cells with faces in 3D). non-trivial: n >= 2 and outside what the suite's consistency_check asserts (periodic or dim < 3 or |anchor|/width > 2 or aspect >= 8); distinct by case hash.",
         strategy,
         check,
         cases: |t| t.pick(6000, 300_000),
